@@ -24,6 +24,7 @@
 #include <unistd.h>
 
 #include "libphysica/Integration.hpp"
+#include "libphysica/Natural_Units.hpp"
 #include "libphysica/Numerics.hpp"
 #include "libphysica/Special_Functions.hpp"
 #include "libphysica/Statistics.hpp"
@@ -100,10 +101,54 @@ int early_compute(int section, double* v)
 		v[n++] = libphysica::Factorial(3);
 		v[n++] = libphysica::Binomial_Coefficient(200, 3);
 	}
+	else if(section == 4)
+	{
+		// unit conversions with explicit numerical units (the unit CONSTANTS are dynamically initialised on the pinned tree and
+		// are therefore not touched here)
+		v[n++] = libphysica::natural_units::In_Units(4321.0, 1.0, true, 1);
+		v[n++] = libphysica::natural_units::In_Units(0.012345678, 1e-3, true, 3);
+		v[n++] = libphysica::natural_units::In_Units(-98765.4321, 2.0, true, 7);
+		v[n++] = libphysica::natural_units::In_Units(5.5, 0.25);
+		for(double q : libphysica::natural_units::In_Units(std::vector<double>{1.0, 22.5, 333.25, 4444.125, 5e-7, 6e9, 7.0, 8.125}, 0.5, true, 2))
+			v[n++] = q;
+		for(auto& row : libphysica::natural_units::In_Units(std::vector<std::vector<double>>{{1.5, 2.5}, {3.25, 4.75}}, std::vector<double>{2.0, 0.5}, true, 2))
+			for(double q : row)
+				v[n++] = q;
+	}
 	return n;
 }
 
-static int run_sections(EarlyRecord& rec)
+// Calls made while the process shuts down: the destructor of an object that was constructed BEFORE the first library call runs
+// after everything those calls built lazily (function-local statics) has been destroyed. User code does this with global
+// loggers and atexit handlers. Only for code whose pinned version keeps nothing with a destructor: interpolation, samplers, unit
+// conversion. (Factorial's memo table and the integrators' work vectors are function statics with destructors on the pinned
+// tree: a call after their destruction is not a valid request there.)
+static bool late_section(int s) { return s == 1 || s == 2 || s == 4; }
+struct LateCaller
+{
+	int section = -1, fd = -1;
+	~LateCaller()
+	{
+		if(section < 0)
+			_exit(0);
+		double w[EARLY_SLOTS] = {0};
+		int m				  = -1;
+		try
+		{
+			m = early_compute(section, w);
+		}
+		catch(...)
+		{
+			_exit(97);
+		}
+		ssize_t k = write(fd, &m, sizeof m);
+		k += write(fd, w, sizeof(double) * (m > 0 ? m : 0));
+		(void) k;
+		_exit(0);
+	}
+};
+
+static int run_sections(EarlyRecord& rec, bool with_late)
 {
 	for(int s = 0; s < EARLY_SECTIONS; s++)
 	{
@@ -121,6 +166,7 @@ static int run_sections(EarlyRecord& rec)
 			dup2(devnull, 1);
 			dup2(devnull, 2);
 			alarm(20);
+			static LateCaller late;	  // constructed before the first library call of this child, hence destroyed after its statics
 			double v[EARLY_SLOTS] = {0};
 			int n				  = 0;
 			try
@@ -133,7 +179,15 @@ static int run_sections(EarlyRecord& rec)
 			}
 			ssize_t w = write(fds[1], &n, sizeof n);
 			w += write(fds[1], v, sizeof(double) * n);
-			_exit(w == (ssize_t)(sizeof n + sizeof(double) * n) ? 0 : 98);
+			if(w != (ssize_t)(sizeof n + sizeof(double) * n))
+				_exit(98);
+			if(with_late && late_section(s))
+			{
+				late.section = s;
+				late.fd		 = fds[1];
+				exit(0);   // static destruction; ~LateCaller repeats the calls and ends the process
+			}
+			_exit(0);
 		}
 		close(fds[1]);
 		int n = 0;
@@ -141,6 +195,13 @@ static int run_sections(EarlyRecord& rec)
 			rec.n[s] = n;
 		else
 			rec.n[s] = -1;
+		rec.late_n[s] = -1;
+		if(with_late && late_section(s) && rec.n[s] >= 0)
+		{
+			int m = 0;
+			if(read(fds[0], &m, sizeof m) == (ssize_t) sizeof m && m >= 0 && m <= EARLY_SLOTS && read(fds[0], rec.late_v[s], sizeof(double) * m) == (ssize_t)(sizeof(double) * m))
+				rec.late_n[s] = m;
+		}
 		close(fds[0]);
 		int status = 0;
 		while(waitpid(pid, &status, 0) < 0 && errno == EINTR) {}
@@ -151,9 +212,9 @@ static int run_sections(EarlyRecord& rec)
 }
 
 static EarlyRecord g_usual;   // the same calls made after main() has started, in a pristine child of the worker
-static int g_early_done = run_sections(g_early);
+static int g_early_done = run_sections(g_early, true);
 
-void early_prepare() { run_sections(g_usual); }
+void early_prepare() { run_sections(g_usual, false); }
 
 void early_check(Ctx& ctx)
 {
@@ -167,14 +228,26 @@ void early_check(Ctx& ctx)
 		s = 2;
 	else if(ctx.prop_is("C06"))
 		s = 3;
+	else if(ctx.prop_is("C20"))
+		s = 4;
 	if(s < 0 || !g_early.ran[s])
 		return;
 	std::string cls = ctx.opts->prop + ":call-during-static-initialisation";
-	static const char* what[EARLY_SECTIONS] = {"Monte Carlo integrations of a constant", "interpolation calls", "sampler calls", "Factorial/Binomial_Coefficient calls"};
+	static const char* what[EARLY_SECTIONS] = {"Monte Carlo integrations of a constant", "interpolation calls", "sampler calls", "Factorial/Binomial_Coefficient calls", "In_Units calls"};
 	int st = g_early.status[s];
 	if(!WIFEXITED(st) || WEXITSTATUS(st) != 0 || g_early.n[s] < 0)
 		ctx.violate(cls, fmt("%s made from a translation unit initialised before the library's (i.e. before main) did not return: %s %d", what[s], WIFSIGNALED(st) ? "killed by signal" : "exit status", WIFSIGNALED(st) ? WTERMSIG(st) : WEXITSTATUS(st)));
 	ctx.sh->early_calls += (uint64_t) g_early.n[s];
+	if(late_section(s))
+	{
+		std::string lcls = ctx.opts->prop + ":call-during-static-destruction";
+		if(g_early.late_n[s] != g_early.n[s])
+			ctx.violate(lcls, fmt("%s repeated from the destructor of an object constructed before the first library call (i.e. while the process shuts down) did not return (%d of %d values)", what[s], g_early.late_n[s], g_early.n[s]));
+		for(int i = 0; i < g_early.n[s]; i++)
+			if(!same_bits(g_early.late_v[s][i], g_early.v[s][i]))
+				ctx.violate(lcls, fmt("%s: value #%d is %s in normal operation and %s when the same call is repeated while the process shuts down", what[s], i, hexf(g_early.v[s][i]).c_str(), hexf(g_early.late_v[s][i]).c_str()));
+		ctx.sh->late_calls += (uint64_t) g_early.n[s];
+	}
 	if(s == 0)
 	{
 		const double expect[6] = {4.0 * MC_CONST, 4.0 * MC_CONST, 4.0 * MC_CONST, 4.0 * MC_CONST, 4.0 * MC_CONST, 4.0 * MC_CONST};
